@@ -1929,6 +1929,42 @@ func (l *Lowerer) externalCall(callee *types.Func, recv *Term, recvTyp types.Typ
 	case "errors.New", "fmt.Errorf":
 		e := l.alloc()
 		return []*Term{e}
+	case "(*github.com/eapache/go-resiliency/breaker.Breaker).Run":
+		// the circuit breaker either refuses (returns an error without running the work) or runs the work
+		// once and returns its result (T-stdlib-like trusted model of the third-party breaker)
+		if fl, ok := ast.Unparen(ce.Args[0]).(*ast.FuncLit); ok {
+			res := l.tmp("Int")
+			refused := l.f.newBlock("breaker.refused")
+			run := l.f.newBlock("breaker.run")
+			join := l.f.newBlock("breaker.join")
+			l.cur.Succs = append(l.cur.Succs, refused, run)
+			l.cur = run
+			rs, _ := l.inline(l.p.litInfo[fl], nil, nil, nil, nil, ce, true)
+			if len(rs) == 1 {
+				l.assign(res, "Int", rs[0])
+			} else {
+				l.havoc(res, "Int")
+			}
+			l.jump(join)
+			l.cur = refused
+			e := l.alloc()
+			l.assign(res, "Int", e)
+			l.jump(join)
+			l.cur = join
+			l.note("T-stdlib: breaker.Run runs the function at most once and returns its error, or refuses with a non-nil error; it does not retain the function")
+			// the closure does not outlive the call: its captured variables are no longer exposed
+			saved, savedHeap := l.escaped, l.escapedHeap
+			l.escaped, l.escapedHeap = map[string]bool{}, map[string]bool{}
+			l.recordEscape(l.p.litInfo[fl])
+			for k := range l.escaped {
+				delete(saved, k)
+			}
+			for k := range l.escapedHeap {
+				delete(savedHeap, k)
+			}
+			l.escaped, l.escapedHeap = saved, savedHeap
+			return []*Term{V(res, "Int")}
+		}
 	case "(*sync.Once).Do":
 		// the function literal may or may not run
 		if fl, ok := ast.Unparen(ce.Args[0]).(*ast.FuncLit); ok {
